@@ -337,7 +337,7 @@ def stage_verdicts(ws, ds):
 # ------------------------------------------------------------------------------------------------
 # stage: the decision functions of the macro, translated from its source and proved equal to the model's
 
-SLICE_FILES = ['bitfield/mod.rs', 'bit_size.rs', 'bitenum.rs']
+SLICE_FILES = ['bitfield/mod.rs', 'bit_size.rs', 'bitenum.rs', 'bitfield/parsing.rs']
 
 
 def probe_check(ws, lib):
@@ -398,7 +398,7 @@ def stage_srcslice(ws):
         except subprocess.TimeoutExpired:
             out, err, rc = '', 'coqc timed out', 124
         m = re.search(r'first_diff = (.*?)\n\s+: ', out, re.S)
-        u['first_diff'] = None if m is None or m.group(1).strip() == 'None' else ' '.join(m.group(1).split())
+        u['first_diff'] = None if m is None or re.sub(r'None|[(),\s]', '', m.group(1)) == '' else ' '.join(m.group(1).split())
         u['assumptions'] = 'closed' if 'Closed under the global context' in out else None
         u['status'] = 'proved' if rc == 0 and u['assumptions'] == 'closed' and u['first_diff'] is None else 'unproved'
         if u['status'] != 'proved':
